@@ -30,10 +30,15 @@ theorem C07_fuzzyEqX_equivalence : Equivalence (fun a b : Rat => fuzzyEqX a b = 
 example : fuzzyEqX 1 (1 + 1/1000000000000) = true ∧ fuzzyEqX 1 (1 + 1/100000000000) = false := by
   decide +kernel
 
-/-- NOT CLAIMED: transitivity of the relation *as executed in floating point*.  The products
-    `a·10¹¹` are rounded before `round()`, so bucket borders are blurred by half an ulp of the
-    product; no counterexample was found, no proof either.  Kept visible; the proved statements are
-    reflexivity, symmetry (above) and the equivalence of the exact rule. -/
+/-- Transitivity of the relation *as executed in floating point* can only fail through the
+    `|a − c| ≤ ε` conjunct: the bucket conjunct is transitive.  This is the exact guard. -/
+theorem C07_fuzzyEqF_trans_guarded (a b c : Rat) (h1 : fuzzyEqF a b = true) (h2 : fuzzyEqF b c = true)
+    (hg : absQ (rnd53 (a - c)) ≤ epsF) : fuzzyEqF a c = true := fuzzyEqF_trans_guarded a b c h1 h2 hg
+
+/-- NOT CLAIMED without the guard (kept visible).  No counterexample exists among the extreme pairs of the
+    buckets 0…3 (the only ones where the rounding of `a·10¹¹` at a binade border leaves a window against
+    `ε = rnd53(10⁻¹¹) = 10⁻¹¹·(1 − 0.545·2⁻⁵³)`; checked numerically with exact rationals) and a targeted
+    search found none; a proof needs an error analysis of the three roundings and is not done. -/
 def C07_fuzzyEqF_transitive_full : Prop :=
   ∀ a b c : Rat, fuzzyEqF a b = true → fuzzyEqF b c = true → fuzzyEqF a c = true
 
@@ -240,10 +245,12 @@ theorem C07_print_shape (compressed : Bool) (x : Rat) :
 example : shapeOK "-0".toList = false ∧ shapeOK "1e3".toList = false ∧ shapeOK "+1".toList = false ∧
     shapeOK "0.50".toList = false ∧ shapeOK "0.12345678901".toList = false ∧ shapeOK "-.5".toList = true := by decide
 
-/-- NOT PROVED (kept visible; evaluated by the driver on every printed text of grass and of the model):
-    no superfluous leading zero — expanded keeps exactly one `0` before the point, compressed none. -/
-def C07_print_lead_full : Prop :=
-  ∀ (compressed : Bool) (x : Rat), leadOK compressed (printFinite false compressed x) = true
+/-- **No superfluous leading zero**: expanded style keeps exactly one `0` before the point, compressed
+    style drops exactly the leading `0` of a number of magnitude below 1 (and nothing else). -/
+theorem C07_print_lead (compressed : Bool) (x : Rat) :
+    leadOK compressed (printFinite false compressed x) = true := printFinite_lead compressed x
+example : leadOK false "0.5".toList = true ∧ leadOK true "0.5".toList = false ∧ leadOK true ".5".toList = true ∧
+    leadOK false "007".toList = false := by decide
 
 /-- **Re-reading, characterised exactly** (exact arithmetic): the re-read number is `==` to `x`
     iff `x` lies in the 10⁻¹¹ bucket of its own 10-digit rounding, i.e. iff the bucket of `x` is ten
@@ -310,10 +317,22 @@ theorem C07_rnd53_neg (q : Rat) : rnd53 (-q) = -rnd53 q := rnd53_neg q
 example : D.add (.fin (dLit "0.1")) (.fin (dLit "0.2")) = some (.fin (1351079888211149/4503599627370496)) ∧
     rnd53 (1/10) = 3602879701896397/36028797018963968 := by decide +kernel
 
-/-- NOT PROVED (kept visible): `rnd53 q` is a nearest 53-bit value, `|rnd53 q − q| ≤ 2⁻⁵³·|q|`, and is
-    monotone.  The definition is tied to IEEE by the correspondence run only (every arithmetic result
-    compared with grass's output). -/
-def C07_rnd53_nearest_full : Prop :=
-  ∀ q : Rat, q ≠ 0 → absQ (rnd53 q - q) * 9007199254740992 ≤ absQ q
+/-- **`rnd53` is round-to-nearest to 53 significant bits** (unbounded exponent — the model guards the
+    normal range separately): for every non-zero `q` the result is `±m·2^e` with `2^52 ≤ m ≤ 2^53` in the
+    binade of `q`, within half a unit in the last place, and no multiple of `2^e` is nearer to `q`. -/
+theorem C07_rnd53_nearest (q : Rat) (hq : q ≠ 0) :
+    ∃ (m : Nat) (e : Int), absQ (rnd53 q) = (m : Rat) * pow2 e ∧ 4503599627370496 ≤ m ∧ m ≤ 9007199254740992 ∧
+      pow2 (e + 52) ≤ absQ q ∧ absQ q < pow2 (e + 53) ∧ 2 * absQ (rnd53 q - q) ≤ pow2 e ∧
+      ∀ j : Int, absQ (rnd53 q - q) ≤ absQ ((j : Rat) * pow2 e - absQ q) := rnd53_nearest q hq
+
+/-- relative error at most 2⁻⁵³ (the statement formerly kept as `C07_rnd53_nearest_full`) -/
+theorem C07_rnd53_relative (q : Rat) (hq : q ≠ 0) : absQ (rnd53 q - q) * 9007199254740992 ≤ absQ q :=
+  rnd53_relative q hq
+
+/-- ties go to the even mantissa: `rndPosME` rounds the scaled quotient `N/D` with `divRoundEven` -/
+theorem C07_rnd53_ties_even (N D : Nat) (h : 2 * (N % D) = D) : divRoundEven N D % 2 = 0 :=
+  divRoundEven_tie_even N D h
+example : rnd53 (9007199254740993 : Rat) = 9007199254740992 ∧ rnd53 (9007199254740995 : Rat) = 9007199254740996 := by
+  decide +kernel
 
 end Grass.Num
